@@ -124,7 +124,7 @@ add("C16", "vp_graph",
 
 add("C07", "vp_alloc",
     "scenario catalogue driven by enumeration + proptest parameters, observed with a counting global allocator (thread-local, armed regions)",
-    "28 scenarios covering sample conversions and arithmetic (incl. the operators of the eight custom-width integer types, in the debug-assertion build), every Frame method, borrowed slice views and in-place ops, Bounded/Fixed ring buffers over array / &mut / Vec / Box<[T]> storage (incl. extend() from iterators whose size_hint is exact, a loose upper bound or unknown, and from iterators of unknown length, shorter and longer than the buffer), rectifiers, RMS, envelope detectors, Floor/Linear/Sinc interpolators, window functions, every signal source and adaptor (incl. take / until_exhausted / interleaved samples / lift / by_ref), fork by_ref and by_rc branches, buffered, rate conversion with every interpolator and mul_hz, rms / detect_envelope adaptors, Window / Windower / Windowed, random adaptor-tree compositions, graphs of stock nodes and wrappers (Graph and StableGraph, cycles, nested GraphNode, alternating output nodes, a mixer with 260..1000 inputs and channel-count mismatches in both directions) after a warm-up process call, and the bus in lock-step (backlog and live bytes constant, also after an output joined and was dropped while everything was in step). State is constructed unarmed; 16..2000 operations (thorough: 2e5) run armed; allocs == reallocs == frees == 0 and the checksum equals the unarmed run's.",
+    "29 scenarios covering sample conversions and arithmetic (incl. the operators of the eight custom-width integer types, in the debug-assertion build), every Frame method, borrowed slice views and in-place ops, Bounded/Fixed ring buffers over array / &mut / Vec / Box<[T]> storage (incl. extend() from iterators whose size_hint is exact, a loose upper bound or unknown, and from iterators of unknown length, shorter and longer than the buffer), rectifiers, RMS, envelope detectors, Floor/Linear/Sinc interpolators, window functions, every signal source and adaptor (incl. take / until_exhausted / interleaved samples / lift / by_ref), a scenario of rarely used entry points (conversion functions called directly, the FromSample / ToSample underscore traits, channel_mut, channels_mut().rev(), the from_* slice views, Bounded IndexMut / from_full / raw parts, Detect::detect, the Converter's source access and setters, Phase::next_phase_wrapped_to), fork by_ref and by_rc branches, buffered, rate conversion with every interpolator and mul_hz, rms / detect_envelope adaptors, Window / Windower / Windowed, random adaptor-tree compositions, graphs of stock nodes and wrappers (Graph and StableGraph, cycles, nested GraphNode, alternating output nodes, a mixer with 260..1000 inputs and channel-count mismatches in both directions) after a warm-up process call, and the bus in lock-step (backlog and live bytes constant, also after an output joined and was dropped while everything was in step). State is constructed unarmed; 16..2000 operations (thorough: 2e5) run armed; allocs == reallocs == frees == 0 and the checksum equals the unarmed run's.",
     "Trusted: the counting allocator (self-tested at start-up). An allocation in an operation outside the catalogue is invisible; the catalogue is listed in the evidence.",
     "DESIGN.md §4 C07")
 
